@@ -14,6 +14,10 @@ CLAIMED = {
    text="Twin-run crash/restart simulation: for seeded lives of every serialisable type (Dual/Dual2 with a storage-sharing partner, Cal, UnionCal, NamedCal, CurveDF x 5 rules, the Python-facing Curve with all three calendar kinds, FXRates under the C10 history alphabet, PPSpline f64/Dual/Dual2 unsolved/solved/re-solved) one twin is crashed and restarted from its durable bytes (JSON, tagged JSON, bincode) at seeded points, including right after construction, after refused operations and back-to-back; it must load, compare == to the twin that never restarted, answer the whole query suite bit-identically, re-save to the same bytes, and stay in lock-step afterwards. Contents are dominated by uniformly random finite bit patterns. Sampling, not proof.",
    note="Trusted: the never-restarted twin as oracle (so a defect that corrupts both twins identically is invisible here), serde_json/bincode themselves. Assumes finite contents, distinct variable names, a working weekday. FX markets are compared after set_ad_order(One) on the original, rates within 64 eps before that, as the property words it.",
    technique="deterministic simulation: seeded crash/restart from durable bytes at arbitrary life points, twin-run oracle"),
+ "C20": dict(level="fault_enumeration", design="DESIGN.md §4 C20",
+   text="Storage-fault enumeration on durable JSON: for every seeded document (each serialisable type, through its direct loader, the tagged from_json container and CalType) every truncation offset, every member deletion/duplication at every depth, every scalar x every alternative value, every array grow/shrink/reverse, every enum-tag swap and the misdirected read by every other loader are executed (single-byte damage and torn splices sampled in quick, splices complete in thorough); each load must not unwind or abort, and an accepted value must satisfy its type's shape invariants and survive a query suite. The other clauses of the property (constructors, date arithmetic over all 256 day counts, month offsets landing in 1971-2199, roll days 1-31, csolve) are pure functions: for them the check is seeded argument generation over the documented ranges under the same no-unwind monitor, and is labelled as generation in the evidence.",
+   note="Exhaustive per document over the listed fault sub-spaces; the documents are a seeded sample. Shape invariants are the dimensional relations established by the public constructors (DESIGN §4 C20). Worker-process death is treated as abort. Trusted: catch_unwind + panic hook, the harness JSON tree (jsonf.rs).",
+   technique="deterministic simulation: complete enumeration of storage faults on durable JSON per seeded document + no-unwind monitor"),
 }
 NA = {
  "C01": "pure function of (expression, point, tagging): no history, fault, clock, I/O or interleaving for a simulator to control; its chain rules run incidentally inside the C10/C12 oracles but are not claimed",
